@@ -38,6 +38,7 @@ def cases(tier, seed):
         cfg["eps"] = float(gen.pick(rng, [1e-8, 1e-6]))
         cfg["finite_diff_rel_step"] = gen.pick(rng, [None, None, 1e-7])
         cfg["cb"] = "never"
+        e2e.vary_rare_parameters(rng, cfg)
         if i % 8 == 3:
             cfg["x0_dtype"] = str(gen.pick(rng, ["float32", "float32", "float16"]))  # a start vector of lower precision
         if i % 5 == 1:
